@@ -7,6 +7,7 @@ use ssz::{BitList, BitVector, BitVectorDynamic};
 use std::collections::{BTreeMap, BTreeSet};
 use std::num::NonZeroUsize;
 use std::sync::Arc;
+use ssz::{Decode, Encode};
 use typenum::Unsigned;
 
 pub fn hex(bytes: &[u8]) -> String {
@@ -38,6 +39,11 @@ pub trait Model: Sized {
     /// does decode(encode(v)) == v make sense for this type (false for asymmetric skips)
     fn symmetric() -> bool {
         true
+    }
+    /// further byte strings worth decoding at this type (maps / sets: entry lists with
+    /// duplicated keys and shuffled order, C19)
+    fn extra_byte_strings(_r: &mut Rng, _size: usize) -> Vec<Vec<u8>> {
+        vec![]
     }
     /// largest size_of over this type and every element / field type nested in it (C06)
     fn max_slot() -> usize {
@@ -259,7 +265,34 @@ impl<T: Model, const N: usize> Model for SmallVec<[T; N]> {
         T::symmetric()
     }
 }
-impl<T: Model + Ord> Model for BTreeSet<T> {
+fn shuffle<T>(r: &mut Rng, v: &mut Vec<T>) {
+    for i in (1..v.len()).rev() {
+        let j = r.below(i + 1);
+        v.swap(i, j);
+    }
+}
+
+impl<T: Model + Ord + Encode + Decode> Model for BTreeSet<T> {
+    fn extra_byte_strings(r: &mut Rng, size: usize) -> Vec<Vec<u8>> {
+        let mut out = vec![];
+        for _ in 0..4 {
+            let n = 1 + r.below(size + 2);
+            let mut es: Vec<T> = (0..n).map(|_| T::gen(r, size / 2)).collect();
+            // duplicates: re-decode an element's own encoding
+            for _ in 0..(1 + r.below(3)) {
+                let i = r.below(es.len());
+                if let Ok(c) = T::from_ssz_bytes(&es[i].as_ssz_bytes()) {
+                    let p = r.below(es.len() + 1);
+                    es.insert(p, c);
+                }
+            }
+            if r.chance(3, 4) {
+                shuffle(r, &mut es);
+            }
+            out.push(es.as_ssz_bytes());
+        }
+        out
+    }
     fn ty() -> String {
         format!("(set {})", T::ty())
     }
@@ -274,7 +307,27 @@ impl<T: Model + Ord> Model for BTreeSet<T> {
         (0..n).map(|_| T::gen(r, size / 2)).collect()
     }
 }
-impl<K: Model + Ord, V: Model> Model for BTreeMap<K, V> {
+impl<K: Model + Ord + Encode + Decode, V: Model + Encode + Decode> Model for BTreeMap<K, V> {
+    fn extra_byte_strings(r: &mut Rng, size: usize) -> Vec<Vec<u8>> {
+        let mut out = vec![];
+        for _ in 0..4 {
+            let n = 1 + r.below(size + 2);
+            let mut es: Vec<(K, V)> = (0..n).map(|_| (K::gen(r, size / 2), V::gen(r, size / 2))).collect();
+            // the same key again with another value, at a random position
+            for _ in 0..(1 + r.below(3)) {
+                let i = r.below(es.len());
+                if let Ok(k) = K::from_ssz_bytes(&es[i].0.as_ssz_bytes()) {
+                    let p = r.below(es.len() + 1);
+                    es.insert(p, (k, V::gen(r, size / 2)));
+                }
+            }
+            if r.chance(3, 4) {
+                shuffle(r, &mut es);
+            }
+            out.push(es.as_ssz_bytes());
+        }
+        out
+    }
     fn ty() -> String {
         format!("(map {} {})", K::ty(), V::ty())
     }
